@@ -25,7 +25,8 @@
  * position is covered.
  *
  * Write log: g_ps_nwr counts the write calls (saturating at 3), the first two
- * are recorded as (address, requested length, octets actually transferred).  g_ps_nrd counts the reads.
+ * are recorded as (address, requested length, octets actually transferred).
+ * g_ps_nrd counts the reads.
  *
  * Checksum algorithm = streaming fold.  The only thing assumed of the user's
  * algorithm f is that it is a fold over the octets, i.e. chunk-composable:
@@ -95,7 +96,10 @@ static size_t st_medium_read(void *dst, uint32_t address, size_t n)
   g_ps_nrd = PM_SAT3(g_ps_nrd);
   if (r > 0) {
     PM_HAVOC(d, r);
-    /* the delivered octets are arbitrary except at the observed positions */
+    /* the delivered octets are arbitrary except at the observed positions.
+     * Field octets: case split on the field octet j the access starts at, so
+     * that the buffer is indexed by constants (symbolic-index accesses made
+     * the proofs 3x slower) */
     if ((uint64_t)address < g_ps_dlo) {
       /* the read starts inside the checksum field, at its octet j */
       const uint64_t j = (uint64_t)address - g_ps_lo;
